@@ -136,6 +136,8 @@ type loopInfo struct {
 	bodyPos token.Pos
 	invs   []*Clause
 	phiHav map[*ssa.Phi]Val
+	headSt *State // state at the loop head of the current symbolic iteration (after havoc)
+	entrySt *State // state when the loop was entered (before havoc), for atEntry(e)
 }
 
 type Frame struct {
@@ -172,7 +174,11 @@ type Frame struct {
 
 func (g *Gen) newFrame(fn *ssa.Function, parent *Frame) *Frame {
 	g.frameSeq++
-	fr := &Frame{g: g, fn: fn, id: fmt.Sprintf("f%d", g.frameSeq), key: keyOfSSAFunc(fn), vals: map[ssa.Value]Val{}, params: map[string]Val{},
+	key := keyOfSSAFunc(fn)
+	if a, ok := g.keyAlias[fn]; ok {
+		key = a
+	}
+	fr := &Frame{g: g, fn: fn, id: fmt.Sprintf("f%d", g.frameSeq), key: key, vals: map[ssa.Value]Val{}, params: map[string]Val{},
 		parent: parent, callIdx: map[string]int{}, reach: map[*ssa.BasicBlock]string{}, exit: map[*ssa.BasicBlock]*State{}}
 	if parent != nil {
 		fr.depth = parent.depth + 1
@@ -961,6 +967,7 @@ func (g *Gen) runBlocks(fr *Frame, order []*ssa.BasicBlock, st0 *State, guard st
 func (g *Gen) enterLoop(fr *Frame, li *loopInfo, st *State, r string, order []*ssa.BasicBlock) *State {
 	h := li.header
 	// 1. invariants on entry (phis already hold the merged entry values)
+	li.entrySt = st.Clone()
 	g.checkInvariants(fr, li, st, r, -1, "entry")
 	// 2. write set by dry run
 	ws := g.dryRun(fr, li, st, order)
@@ -1035,10 +1042,13 @@ func (g *Gen) enterLoop(fr *Frame, li *loopInfo, st *State, r string, order []*s
 		older(nv)
 		st.cells[k] = nv
 	}
+	li.headSt = st.Clone()
 	// 4. assume invariants
 	for _, inv := range li.invs {
 		env := g.envFor(fr, st)
 		env.pos = li.bodyPos
+		env.headSt = st
+		env.entrySt = li.entrySt
 		for _, in := range li.header.Instrs {
 			if phi, ok := in.(*ssa.Phi); ok && phi.Comment == "rangeindex" {
 				v := fr.val(phi)
@@ -1075,6 +1085,11 @@ func (g *Gen) checkInvariants(fr *Frame, li *loopInfo, st *State, guard string, 
 	for _, inv := range li.invs {
 		env := g.envFor(fr, st)
 		env.pos = li.bodyPos
+		env.headSt = li.headSt
+		env.entrySt = li.entrySt
+		if backEdge < 0 {
+			env.headSt = st
+		}
 		for _, in := range li.header.Instrs {
 			if phi, ok := in.(*ssa.Phi); ok && phi.Comment == "rangeindex" {
 				v := fr.val(phi)
